@@ -111,6 +111,9 @@ def binding_menu(out, expr, layouts, loop_ranks, quick):
         ins = [f[1] for f in fs if f[0] == "t"]
         for r in loop_ranks:
             holders = [t for t in ins if r in layouts[(out, t)][1]]
+            affine = any(len(a) > 1 for f in fs if f[0] == "t" for a in f[2])
+            if affine and len(ins) >= 2:
+                holders = list(ins)
             if len(holders) < 2:
                 continue
             menu.append(("is2:%s" % r, [{"component": "Is2", "bindings": [{"rank": r}]}]))
@@ -160,6 +163,16 @@ def base_specs(quick):
         out.append(("mm/flat", {"decl": decl, "exprs": [mm], "mapping": {
             "partitioning": {"Z": {"K": ["uniform_shape(2)"], "(M, K0)": ["flatten()"], "MK0": ["uniform_occupancy(A.2)"]}},
             "loop-order": {"Z": ["K1", "MK01", "N", "MK00"]}}}, [{"K": 3, "M": 2, "N": 1}]))
+    out.append(("mm/NKM", {"decl": decl, "exprs": [mm], "mapping": {"loop-order": {"Z": ["N", "K", "M"]}}}, [{"K": 2, "M": 2, "N": 1}, {"K": 1, "M": 1, "N": 3}]))
+    # output-only rank (broadcast) and index math: ranks that are not simply co-iterated
+    db = {"A": ["K", "M"], "B": ["K"], "Z": ["M", "N"]}
+    out.append(("bcast", {"decl": db, "exprs": [E("Z", ["m", "n"], times(T("A", "k", "m"), T("B", "k")))],
+                          "mapping": {"loop-order": {"Z": ["M", "K", "N"]}}}, [{"K": 2, "M": 2, "N": 2}]))
+    dc = {"I": ["W"], "F": ["S"], "O": ["Q"]}
+    out.append(("conv/QS", {"decl": dc, "exprs": [E("O", ["q"], times(T("I", {"q": 1, "s": 1}), T("F", "s")))],
+                            "mapping": {"loop-order": {"O": ["Q", "S"]}}}, [{"Q": 3, "S": 2, "W": 4}]))
+    out.append(("conv/WQ", {"decl": dc, "exprs": [E("O", ["q"], times(T("I", {"q": 1, "s": 1}), T("F", "s")))],
+                            "mapping": {"loop-order": {"O": ["W", "Q"]}}}, [{"Q": 3, "S": 2, "W": 4}]))
     d2 = {"A": ["K", "M"], "B": ["K", "M"], "C": ["K"], "Z": ["M"]}
     out.append(("mm3", {"decl": d2, "exprs": [E("Z", ["m"], times(T("A", "k", "m"), T("B", "k", "m"), T("C", "k")))],
                         "mapping": {"loop-order": {"Z": ["M", "K"]}}}, [{"K": 2, "M": 2}]))
